@@ -161,6 +161,11 @@ static bool numeric_string(const std::string &s, int &kind, unsigned long long &
         u    = 12;
         return true;
     }
+    if (s == "18446744073709551615") {
+        kind = 2;
+        u    = 18446744073709551615ULL;
+        return true;
+    }
     if (s == "-3") {
         kind = 3;
         i    = -3;
@@ -422,6 +427,8 @@ struct VSys {
             const char *acts[]  = {
                 "=true", "=false", "=null", "=7u", "=-3", "=2.5", "=\"s\"", "=\"\"", "=\"12\"", "={k:1}", "=[1,\"x\"]", "=R1", "=move(R1)", "=self",
                 "=String(\"s\")", "=const String&", "=StringView", "=ArrayT&&", "=ObjectT const&",
+                "=own array (const ArrayT& alias)", "=own object (const ObjectT& alias)", "=own string (const String& alias)",
+                "=18446744073709551615u", "=\"18446744073709551615\"",
                 "+=7u", "+=\"s\"", "+=null", "+=true", "+=2.5", "+=[] (ArrayT&&)", "+=[9,8] (ArrayT&&)", "+=[9] (const ArrayT&)", "+={c:3} (ObjectT&&)",
                 "+={a:4} (const ObjectT&)", "+=R1", "+=move(R1)", "+=String&&", "+=StringView",
                 "Merge(R1)", "Merge(move(R1))",
@@ -792,6 +799,29 @@ struct VSys {
                 ob["k"] = V(SizeT64{1});
                 X       = (const V::ObjectT &)ob;
                 M       = lit_obj_k1();
+            } else if (act == "=own array (const ArrayT& alias)") {
+                if (M.k != MV::A) {
+                    return false;
+                }
+                X = *((const V &)X).GetArray(); // the argument aliases the value's own storage
+                M = m_copy(M);
+            } else if (act == "=own object (const ObjectT& alias)") {
+                if (M.k != MV::O) {
+                    return false;
+                }
+                X = *((const V &)X).GetObject();
+                M = m_copy(M);
+            } else if (act == "=own string (const String& alias)") {
+                if (M.k != MV::S) {
+                    return false;
+                }
+                X = *((const V &)X).GetString();
+            } else if (act == "=18446744073709551615u") {
+                X = SizeT64{18446744073709551615ULL};
+                M = mUI(18446744073709551615ULL);
+            } else if (act == "=\"18446744073709551615\"") {
+                X = "18446744073709551615";
+                M = mS("18446744073709551615");
             } else if (act == "+=7u") {
                 X += SizeT64{7};
                 m_append(M, mUI(7));
